@@ -1,9 +1,9 @@
 package props
 
 import (
-	"go/constant"
 	"encoding/json"
 	"fmt"
+	"go/constant"
 	"go/token"
 	"go/types"
 	"os"
@@ -135,6 +135,9 @@ func shortType(t types.Type) string {
 // normCond: a comparison reduced to the cut it makes: polarity and operand order are normalised away, so that
 // a == b / a != b, a < b / a >= b / b > a / b <= a describe the same test, while a < b and a <= b do not.
 func normCond(bo *ssa.BinOp) string {
+	if s, ok := intCut(bo); ok {
+		return s
+	}
 	x, y := describeVal(bo.X, 0), describeVal(bo.Y, 0)
 	switch bo.Op {
 	case token.EQL, token.NEQ:
@@ -154,6 +157,65 @@ func normCond(bo *ssa.BinOp) string {
 		return y + " <? " + x
 	}
 	return ""
+}
+
+// intCut: a comparison of an integer value v with an integer constant c, written as the cut it makes on the
+// integers — "k <? v" (v > k, or its negation) — so that v > 4, v >= 5, !(v <= 4) and !(v < 5) read alike, and,
+// for a value that cannot be negative (unsigned, len, cap), v == 0, v != 0, v < 1 and v >= 1 read as "0 <? v".
+func intCut(bo *ssa.BinOp) (string, bool) {
+	constOf := func(v ssa.Value) (int64, bool) {
+		k, ok := v.(*ssa.Const)
+		if !ok || k.Value == nil || k.Value.Kind() != constant.Int {
+			return 0, false
+		}
+		if b, ok := k.Type().Underlying().(*types.Basic); !ok || b.Info()&types.IsInteger == 0 {
+			return 0, false
+		}
+		n, exact := constant.Int64Val(k.Value)
+		return n, exact
+	}
+	v, op := bo.X, bo.Op
+	c, ok := constOf(bo.Y)
+	if !ok {
+		if c, ok = constOf(bo.X); !ok {
+			return "", false
+		}
+		v = bo.Y
+		switch op { // c op v  ==  v op' c
+		case token.LSS:
+			op = token.GTR
+		case token.LEQ:
+			op = token.GEQ
+		case token.GTR:
+			op = token.LSS
+		case token.GEQ:
+			op = token.LEQ
+		}
+	}
+	if _, isConst := v.(*ssa.Const); isConst {
+		return "", false
+	}
+	b, isBasic := v.Type().Underlying().(*types.Basic)
+	if !isBasic || b.Info()&types.IsInteger == 0 {
+		return "", false
+	}
+	nonNeg := b.Info()&types.IsUnsigned != 0
+	if call, ok := v.(*ssa.Call); ok {
+		if bi, ok := call.Call.Value.(*ssa.Builtin); ok && (bi.Name() == "len" || bi.Name() == "cap") {
+			nonNeg = true
+		}
+	}
+	switch op {
+	case token.GTR, token.LEQ:
+		return fmt.Sprintf("%d <? %s", c, describeVal(v, 0)), true
+	case token.GEQ, token.LSS:
+		return fmt.Sprintf("%d <? %s", c-1, describeVal(v, 0)), true
+	case token.EQL, token.NEQ:
+		if nonNeg && c == 0 {
+			return fmt.Sprintf("0 <? %s", describeVal(v, 0)), true
+		}
+	}
+	return "", false
 }
 
 // singleBit: v is an integer constant with exactly one bit set.
